@@ -1626,9 +1626,24 @@ def check_C19(tier, seed, replay=None):
     if p.returncode != 0:
         raise P.Inconclusive("hook failed: " + p.stderr.decode(errors="replace")[-500:])
     inproc = 0
-    for ln in p.stdout.decode().splitlines():
+    # ... and what a build returns does not depend on what the process has built BEFORE: every request is also served by a fresh
+    # process of its own (one build), which must give the digest of the builds made after all the earlier grammars
+    def alone(rq):
+        one_ = dict(json.loads(rq), times=1)
+        q = subprocess.run([pv], input=(json.dumps(one_) + "\n").encode(), stdout=subprocess.PIPE, stderr=subprocess.PIPE, env=dict(P.ENV, PIGEON_VERIF="rebuild"), timeout=600)
+        if q.returncode != 0:
+            raise P.Inconclusive("hook failed: " + q.stderr.decode(errors="replace")[-500:])
+        return json.loads(q.stdout.decode().splitlines()[0]).get("digests", [])
+    fresh = P.parallel(alone, reqs, workers=16)
+    for ln, fr in zip(p.stdout.decode().splitlines(), fresh):
         r = json.loads(ln)
         inproc += 1
+        if fr and r.get("digests") and set(fr) != set(r["digests"][:1]) and len(set(r["digests"])) == 1:
+            rd = os.path.join(P.VERIF, "replays", "C19")
+            os.makedirs(rd, exist_ok=True)
+            rp = os.path.join(rd, "inproc_history_%d.json" % r["id"])
+            json.dump(dict(property="C19", grammar=texts[r["id"]], request=json.loads(reqs[inproc - 1]) | dict(text="(see grammar)"), digest_after_other_builds=r["digests"][0], digest_in_a_fresh_process=fr[0]), open(rp, "w"), indent=1)
+            run.violation(rp, "a build made after other builds in the same process differs from the same build in a fresh process")
         if len(set(r.get("digests", []))) > 1:
             rd = os.path.join(P.VERIF, "replays", "C19")
             os.makedirs(rd, exist_ok=True)
@@ -2141,6 +2156,38 @@ def check_C04(tier, seed, replay=None):
             run.known.append("%s: %s" % (fid, findings.what(fid)))
         else:
             run.notes.append("known finding %s: witness no longer fails" % fid)
+    # library use: several grammars built one after the other in ONE process with the same option values -- grammars with and
+    # without left recursion, with and without state blocks, in both orders.  What is compiled and vetted above is what a fresh
+    # process emits; a build that follows other builds must emit the same bytes (else it is a file nothing here has compiled).
+    import subprocess as _sp
+    from peg import pack_text as _pt
+    pvh = P.build_pigeon("verif")
+    lrg = F.lr_groups(seed + 77, 6, gi0=1, pure=False) + F.lr_groups(seed + 78, 4, gi0=7, pure=True)
+    plain = F.random_groups(seed + 79, 10, F.RandCfg(depth=3, maxrules=2, preds=True, state=True), gi0=11) + F.random_groups(seed + 80, 6, F.RandCfg(depth=3, maxrules=2, preds=True), gi0=21)
+    seqs = []
+    for a_, b_ in zip(plain, lrg + lrg):
+        seqs += [a_, b_]
+    seqs = seqs + list(reversed(seqs))
+    hreqs = []
+    for i_, g_ in enumerate(seqs):
+        hreqs.append(json.dumps(dict(id=i_ + 1, text=list(_pt([g_]).encode()), times=1, lr=True, optimize=False, entry=[g_.sname()], optparser=(i_ // 2) % 2 == 1, latin=(i_ // 4) % 2 == 1)))
+    def _hook(lines):
+        q = _sp.run([pvh], input=("\n".join(lines) + "\n").encode(), stdout=_sp.PIPE, stderr=_sp.PIPE, env=dict(P.ENV, PIGEON_VERIF="rebuild"), timeout=900)
+        if q.returncode != 0:
+            raise P.Inconclusive("hook failed: " + q.stderr.decode(errors="replace")[-500:])
+        return [json.loads(l_).get("digests", []) for l_ in q.stdout.decode().splitlines()]
+    together = _hook(hreqs)
+    singly = P.parallel(lambda r_: _hook([r_])[0], hreqs, workers=16)
+    for i_, (t_, s_) in enumerate(zip(together, singly)):
+        if t_ != s_:
+            nviol += 1
+            rd_ = os.path.join(P.VERIF, "replays", "C04")
+            os.makedirs(rd_, exist_ok=True)
+            rp_ = os.path.join(rd_, "inprocess_build_%d.json" % (i_ + 1))
+            json.dump(dict(property="C04", verdict="the file emitted by a build that follows other builds in the same process is not the file a fresh process emits (the one that was compiled and vetted)",
+                           grammar=_pt([seqs[i_]]), request=dict(json.loads(hreqs[i_]), text="(see grammar)"), built_before=[_pt([x_])[:200] for x_ in seqs[max(0, i_ - 2):i_]],
+                           digest_in_sequence=t_, digest_alone=s_), open(rp_, "w"), indent=1)
+            run.violation(rp_, "in-process build %d of a sequence differs from the same build in a fresh process" % (i_ + 1))
     cov = dict(evaluations=len(jobs), distinct_nontrivial=len(allg),
                rule="grammars with adversarial rule names (one name = another + digits), labels in every scoping construct (random, with predicates/state/throw), ALL %d Unicode class names of unicode_classes.go plus the 7 single-letter classes, left-recursive towers; x flag combinations out of the 2^7 of {-optimize-parser,-optimize-grammar,-optimize-basic-latin,-support-left-recursion,-nolint,-cache,-receiver-name=x} x {with, without state blocks}; per combination: pigeon exit 0, gofmt -l clean, go build, go vet, package initialisation; the method set (name, parameter list) extracted from the generated file is validated by TLC against Builder.tla; a failing pack is bisected into single-group packages" % nucl,
                samples=[dict(flags=j[2], pack=j[0]) for j in jobs[:4]],
